@@ -15,8 +15,11 @@ HARNESSES = [
     M("c08_write_target_then_user", "target modules first, then caller-supplied ones, in order (> 20 min)", "thorough", timeout=3400, est_gb=14, mem_gb=30), M("c08_write_zero_id_and_user", "zero-id target skipped, caller-supplied listed"),
     M("c08_write_suppressed", "a target mapping wholly inside a caller-supplied one is suppressed (equal end addresses), not even read"),
     M("c08_entry_point_module_first", "enumerate_mappings: the mapping containing AT_ENTRY is moved to the front, nothing lost (maps parsing and aggregation scripted)"),
-    M("c02_so_version_name_nonascii_separator","probe","thorough",timeout=1200,est_gb=8,mem_gb=20), M("c02_so_version_name_fourth_alnum","probe","thorough",timeout=1200,est_gb=8,mem_gb=20), M("c02_so_version_name_third_alnum","probe","thorough",timeout=1200,est_gb=8,mem_gb=20),
-    M("c02_so_version_ascii_separator","probe","thorough",timeout=1500,est_gb=10,mem_gb=20), M("c02_so_version_2byte_separator","probe","thorough",timeout=1500,est_gb=10,mem_gb=20),
+    M("c02_so_version_name_nonascii_separator", "SoVersion::parse: 'a.so.1.2.3\u00e94' (multi-byte character inside a component)"), M("c02_so_version_name_fourth_alnum", "SoVersion::parse: 'a.so.1.2.3.4rc5' (alphanumeric FOURTH component)"),
+    M("c02_so_version_name_third_alnum", "SoVersion::parse: 'a.so.1.2.3rc4'"),
+    M("c02_so_version_symbolic_digits", "SoVersion::parse: every digit pair in 'a.so.1.2.<d>\u00e9<e>'", "thorough", timeout=1500, est_gb=8, mem_gb=20),
+    M("c02_so_version_ascii_separator", "SoVersion::parse: 3 symbolic bytes (does not finish in 1500 s)", "thorough", timeout=3400, est_gb=8, mem_gb=20),
+    M("c02_so_version_2byte_separator", "SoVersion::parse: 4 symbolic bytes (does not finish in 1500 s)", "thorough", timeout=3400, est_gb=8, mem_gb=20),
     M("c08_write_listed_no_soname", "unreadable SONAME: listed without it", "thorough", timeout=3000, est_gb=14, mem_gb=30),
     M("c08_is_interesting", "is_interesting predicate"), M("c08_is_contained_in", "is_contained_in predicate"),
     M("c08_raw_module_replace_basename", "module record, basename replaced by SONAME (string handling: > 15 min)", "thorough", est_gb=10, mem_gb=30), M("c08_raw_module_append_soname", "module record, SONAME appended", "thorough", est_gb=10, mem_gb=30),
